@@ -5,7 +5,7 @@
 (* this part carry the prefix EC.  (The commitment / authentication        *)
 (* algebra of C12 extends this module later; nothing here depends on it.)  *)
 (*                                                                         *)
-(* Three layers, implementation-shaped:                                    *)
+(* Layers, implementation-shaped:                                    *)
 (*  1. integer arithmetic of ReedSolomonCoder::shred (padding length,      *)
 (*     shard size, the "last shreds" buffer and the boundary index),       *)
 (*  2. the same over symbolic byte strings (alphabet: zero byte, the 0x80  *)
@@ -15,8 +15,10 @@
 (*     Shredder::deshred, its verdict, the returned slice and the array    *)
 (*     afterwards.  Reed-Solomon itself is ideal (MDS): ECData consistent  *)
 (*     shards of one codeword determine it, fewer determine nothing.       *)
-(* The property (C11) is stated declaratively at the end (EC_* predicates) *)
-(* and checked by TLC over every case MC_Shred enumerates.                 *)
+(*  4. shredder objects: results do not depend on what an object was used  *)
+(*     for before (EC_InstanceIndependent).                                *)
+(* The property (C11) is stated declaratively (EC_* predicates) and        *)
+(* checked by TLC over every case / history MC_Shred enumerates.           *)
 (***************************************************************************)
 EXTENDS Naturals, Sequences, FiniteSets, TLC
 
@@ -230,4 +232,22 @@ EC_Again(arr, res, res2) ==      \* res2: the result for ECForget(arr, res)
             /\ res2.ok => (res2.slice = res.slice /\ res2.arr = res.arr)
 \* size limit
 EC_LimitExact(v, slice) == ECShred(v, slice).ok <=> ECFits(v, slice)
+
+---------------------------------------------------------------------------
+(* 4. shredder objects.  One Shredder value serves many calls (they are    *)
+(* pooled: ShredderPool; a node is leader in some slots and receiver in    *)
+(* others).  In the specification such an object has no state that         *)
+(* matters: all it carries is the log of the calls it has served, and      *)
+(* the result of a call is a function of the call's arguments alone.       *)
+ECFresh == <<>>                                    \* Shredder::default()
+ECLogged(inst, call) == Append(inst, call)         \* the object after serving `call`
+ECShredOn(inst, v, slice) == ECShred(v, slice)
+ECDeshredOn(inst, v, cw, arr) == ECDeshred(v, cw, arr)
+\* whatever an object has been used for before, it answers like a fresh one
+EC_InstanceIndependent(inst, v, cw, slice, arr) ==
+  /\ ECShredOn(inst, v, slice) = ECShredOn(ECFresh, v, slice)
+  /\ ECDeshredOn(inst, v, cw, arr) = ECDeshredOn(ECFresh, v, cw, arr)
+\* Shredding draws fresh key material only in the all-or-nothing variants; the others map equal
+\* (slice, signing key) to the same 64 shreds, whichever object does it and however often.
+ECDeterministic(v) == ECOverhead(v) = 0
 =============================================================================
